@@ -46,6 +46,7 @@ def main():
     tier = a[a.index("--tier") + 1] if "--tier" in a else "quick"
     layers = a[a.index("--layers") + 1] if "--layers" in a else None
     keep = "--keep" in a
+    declared = a[a.index("--declared") + 1] if "--declared" in a else pid  # property the author aimed at
     wt = "/tmp/vs_" + name
     res = {"name": name, "property": pid, "base": None, "steps": {}}
     sh("git -C /repo worktree remove --force %s" % wt)
@@ -100,7 +101,7 @@ def main():
                 if os.path.exists(os.path.join(src, f)):
                     shutil.copy(os.path.join(src, f), os.path.join(dst, f))
             notes = open(os.path.join(src, "notes.md")).read() if os.path.exists(os.path.join(src, "notes.md")) else ""
-            meta = {"breaks_property": pid, "needs_to_manifest": notes[:1500], "base_commit": res["base"],
+            meta = {"breaks_property": declared, "judged_by_check": pid, "needs_to_manifest": notes[:1500], "base_commit": res["base"],
                     "author": "independent sub-agent given only the property text and a scratch worktree",
                     "confirmed_by_me": {"demo_passes_on_base": ok1, "suite_passes_with_patch": ok2, "suite_summary": summ, "demo_fails_with_patch": ok3},
                     "what_i_ran": ["git worktree add --detach /tmp/vs_%s %s" % (name, base), "cargo test --offline --test seed_demo   # base: pass",
@@ -118,6 +119,8 @@ def main():
                     pass
             meta["verif_commit"] = sh("git -C %s rev-parse --short HEAD" % ROOT)[1].strip()
             meta["history"] = hist
+            if res["detected"]:
+                meta["caught_by"] = pid
             json.dump(meta, open(mp, "w"), indent=1)
     finally:
         if not keep:
